@@ -159,7 +159,7 @@ UNIT = dict(
          methods={'begin': 'CB_begin', 'end': 'CB_end', 'initialize_next_block': 'CB_initialize_next_block', 'set_link': 'HP_set_link'},
          must_fire={'method:set_link': 2, 'method:begin': 1, 'method:end': 1, 'method:initialize_next_block': 1}),
     dict(id='cb_initialize', file=IMPL, sig=r'void initialize\(hint& hint\)', c_sig='static void cb_initialize(struct cb* self, struct hp_slot** hint_p)',
-         pre_subst=[SELF, (r'\bStrategy::number_of_active_hps\b', 'xv_number_of_active_hps', 'active_hps')], subst=[HINT], methods=CBM,
+         pre_subst=[SELF, K, (r'\bStrategy::number_of_active_hps\b', 'xv_number_of_active_hps', 'active_hps')], subst=[HINT], methods=CBM,
          calls={'initialize_block': 'CB_initialize_block'}, must_fire={'A_FADD': 1, 'call:initialize_block': 1, 'subst:hint_ref': 1}),
     dict(id='cb_alloc_hazard_pointer', file=IMPL, sig=r'hazard_pointer\* alloc_hazard_pointer\(hint& hint\)',
          c_sig='static struct hp_slot* cb_alloc_hazard_pointer(struct cb* self, struct hp_slot** hint_p)',
@@ -206,7 +206,7 @@ UNIT = dict(
          methods={'begin': 'DCB_begin', 'end': 'DCB_end', 'initialize_next_block': 'DCB_initialize_next_block', 'set_link': 'HP_set_link'},
          must_fire={'method:set_link': 2, 'method:begin': 1, 'method:end': 1, 'method:initialize_next_block': 1}),
     dict(id='dcb_initialize', file=IMPL, sig=r'void initialize\(hint& hint\)', c_sig='static void dcb_initialize(struct dcb* self, struct hp_slot** hint_p)',
-         pre_subst=[SELF, (r'\bStrategy::number_of_active_hps\b', 'xv_number_of_active_hps', 'active_hps')], subst=[HINT],
+         pre_subst=[SELF, K, (r'\bStrategy::number_of_active_hps\b', 'xv_number_of_active_hps', 'active_hps')], subst=[HINT],
          methods={'number_of_hps': 'DCB_number_of_hps'}, calls={'initialize_block': 'DCB_initialize_block'},
          must_fire={'A_FADD': 1, 'call:initialize_block': 1, 'subst:hint_ref': 1}),
     dict(id='dcb_alloc_hazard_pointer', file=IMPL, sig=r'hazard_pointer\* alloc_hazard_pointer\(hint& hint\)',
